@@ -16,9 +16,19 @@ ASSUMPTIONS = [
     'rounding is outside the theorems; the oracle allows 1e-7 (+ the solver tolerance for exact / van_leer) '
     'relative to the problem scales on data spanning 6 decades',
 ]
-READY = False
+READY = True
 DESIGN_REF = '6/C15'
 TECHNIQUE = 'Lean 4 proof over a model regenerated from the source by a validated translator'
-LEVEL_TEXT = ''
-LEVEL_NOTE = ''
+LEVEL_TEXT = ("Lean 4 theorems over every linearly ordered field with abstract sqrt/pow, about definitions that "
+              "translate/riemann2lean.py regenerates from riemann_solver.py on every run: reflect_<s> for non_diffusive, "
+              "roe, llxf, hllsy, hlle, hll_ball, hllc_ball (no hypothesis) and van_leer (admissible data, by induction "
+              "over the iteration); equal_states_<s> for the same seven non-iterative solvers; galilean_van_leer; "
+              "vacuum_reported_exact; riemann_solve_dispatch / reflect_riemann_solve. The translator is validated each "
+              "run by bit-exact execution of the generated definitions at Float against the Python source "
+              "(13 600+ compared calls quick), and every clause of the statement is evaluated on the real code.")
+LEVEL_NOTE = ("Partial: reflection symmetry of ducowicz, hllc, exact is stated (ReflectSymRemaining) but not proved; "
+              "exact's Galilean/scaling/pressure-function clauses, van_leer's scaling and the positivity of a "
+              "successful p* are checked on the real code only. Trusted: Lean kernel + 3 standard axioms; the "
+              "translator (validated bit for bit every run); exact-field arithmetic with abstract sqrt/pow in place "
+              "of IEEE doubles; pure-Python execution (printf replaced by a no-op, see notes).")
 TIMEOUT = {'quick': 1500, 'thorough': 3 * 3600}
